@@ -30,7 +30,20 @@ def norm(name):
 def enc_int(n):
     if -LIMIT <= n <= LIMIT:
         return {"k": "int", "i": n}
-    return {"k": "big", "g": [1 if n >= 0 else -1] + [int(c) for c in str(abs(n))]}
+    return {"k": "big", "g": [1 if n >= 0 else -1] + _digits(abs(n))}
+
+
+def _digits(m):
+    """Decimal digits of a non-negative int without str(int) (the interpreter refuses beyond 4300 digits)."""
+    chunks = []
+    base = 10 ** 18
+    while m >= base:
+        m, r = divmod(m, base)
+        chunks.append(r)
+    out = [int(c) for c in str(m)]
+    for r in reversed(chunks):
+        out += [int(c) for c in "%018d" % r]
+    return out
 
 
 def encode(v):
